@@ -278,7 +278,7 @@ def check_singular_measure(prog, report):
         for T in maps:
             tot += integrate_cube(T[0]**exps[0] * T[1]**exps[1] * u, 2)
         nm += 1
-        if sp.nsimplify(tot - sp.Rational(1, (exps[0] + 1) *
+        if sp.simplify(tot - sp.Rational(1, (exps[0] + 1) *
                                           (exps[1] + 1))) != 0:
             nbad += 1
     report.check(nbad == 0, 'R-pushforward', 'two-piece rule', fi.where(st5),
